@@ -336,6 +336,21 @@ func c19ViaAPI(t *rapid.T, o c19Obj) c19Obj {
 	return c19Obj{Pod: out}
 }
 
+// c19Unbound is the object as the API server held it between the pre-bind patch (annotations written) and the bind
+// (spec.nodeName / status.nodeName+phase written): annotated, not assigned yet.
+func c19Unbound(o c19Obj) c19Obj {
+	n := o.copy()
+	if n.Resv != nil {
+		n.Resv.Status.NodeName = ""
+		n.Resv.Status.Phase = schedulingv1alpha1.ReservationPending
+		n.Resv.Status.Allocatable = nil
+	} else {
+		n.Pod.Spec.NodeName = ""
+		n.Pod.Status.Phase = ""
+	}
+	return n
+}
+
 // c19Handlers are the two registrations of registerPodEventHandler: pods, and reservations mapped to reserve pods.
 type c19Handlers struct {
 	pod  cache.ResourceEventHandler
@@ -381,7 +396,9 @@ func c19NewReservation(pod *corev1.Pod, idx int) *schedulingv1alpha1.Reservation
 // ---------------------------------------------------------------- replay into a fresh scheduler
 
 type c19Event struct {
-	Kind string // add | dup-add | update | device
+	// add | dup-add | update | device | add-unbound (the informer first saw the object annotated but not bound)
+	// | bind-update (the update old=annotated unbound, new=bound that follows an add-unbound: same allocation)
+	Kind string
 	UID  types.UID
 }
 
@@ -396,6 +413,10 @@ func c19Replay(device *schedulingv1alpha1.Device, objs map[types.UID]c19Obj, eve
 			sawDevice = true
 		case "add", "dup-add":
 			h.add(objs[ev.UID])
+		case "add-unbound":
+			h.add(c19Unbound(objs[ev.UID]))
+		case "bind-update":
+			h.update(c19Unbound(objs[ev.UID]), objs[ev.UID])
 		case "update":
 			o := objs[ev.UID]
 			n := o.copy()
@@ -436,6 +457,28 @@ func c19GenEvents(t *rapid.T, uids []types.UID) ([]c19Event, int, bool) {
 		}
 		pos := rapid.IntRange(first+1, len(evs)).Draw(t, "extraPos")
 		evs = append(evs[:pos], append([]c19Event{{kind, u}}, evs[pos:]...)...)
+	}
+	// some objects are first seen between their pre-bind patch and their bind: Add(annotated, unbound), then the update
+	// to the bound object, which carries the same allocation, before anything else about that object
+	for _, u := range uids {
+		if rapid.IntRange(0, 3).Draw(t, "seenBeforeBind") != 0 {
+			continue
+		}
+		first, nextOfU := -1, len(evs)
+		for j, ev := range evs {
+			if ev.UID != u {
+				continue
+			}
+			if first < 0 {
+				first = j
+			} else {
+				nextOfU = j
+				break
+			}
+		}
+		evs[first].Kind = "add-unbound"
+		pos := rapid.IntRange(first+1, nextOfU).Draw(t, "bindUpdatePos")
+		evs = append(evs[:pos], append([]c19Event{{"bind-update", u}}, evs[pos:]...)...)
 	}
 	// the Device informer is independent of the pod informer: its report may arrive anywhere
 	pos := 0
@@ -640,7 +683,7 @@ func TestVerifC19DeviceReplay(t *testing.T) {
 		dead := false
 		sawVF, sawMultiType, sawMultiDev, sawShareDev, sawDup, sawTerminated, sawPodFinished, sawSelfEvent, sawLate, sawResv, sawID := false, false, false, false, false, false, false, false, false, false, false
 		maxLive, checks := 0, 0
-		sawDeleted := false
+		sawDeleted, sawEarly := false, false
 
 		bound := func() []types.UID {
 			var out []types.UID
@@ -667,6 +710,11 @@ func TestVerifC19DeviceReplay(t *testing.T) {
 			fresh := c19Replay(device, persisted, evs)
 			if late {
 				sawLate = true
+			}
+			for _, ev := range evs {
+				if ev.Kind == "add-unbound" {
+					sawEarly = true
+				}
 			}
 			if extras > 0 {
 				sawDup = true
@@ -823,8 +871,10 @@ func TestVerifC19DeviceReplay(t *testing.T) {
 					}
 				}
 			}
-			if selfEvent {
-				live.update(before, obj)
+			if selfEvent { // the allocating scheduler's own informer reports the pre-bind patch, then the bind
+				mid := c19Unbound(obj)
+				live.update(before, mid)
+				live.update(mid, obj)
 				sawSelfEvent = true
 			}
 			hist = append(hist, fmt.Sprintf("schedule %s -> bound %s as %s selfEvent=%v", what, c19AllocStr(state.allocationResult), obj, selfEvent))
@@ -936,6 +986,7 @@ func TestVerifC19DeviceReplay(t *testing.T) {
 		c.ClassIf(sawTerminated, "finished-reservation-persisted")
 		c.ClassIf(sawPodFinished, "pod-finished(delivered-as-delete)")
 		c.ClassIf(sawDeleted, "object-deleted")
+		c.ClassIf(sawEarly, "replay:add-unbound-then-bind-update")
 		c.ClassIf(sawSelfEvent, "live-saw-own-bind-event")
 		c.ClassIf(sawLate, "pod-event-before-device-report")
 		c.ClassIf(sawResv, "reservation-object-persisted")
